@@ -8,6 +8,9 @@ import (
 // vSetMatch makes FindStringSubmatch on re return result (nil = no match).
 func vSetMatch(re *regexp.Regexp, result []string)
 
+// vSetMatchOn makes FindStringSubmatch(subject) on re return result.
+func vSetMatchOn(re *regexp.Regexp, subject string, result []string)
+
 // vmNow is the wall clock as the code under test sees it (the engine's clock
 // model; natively the rewritten call sites' clock).
 func vmNow() time.Time { return time.Now() }
